@@ -89,6 +89,15 @@ static void run() {
             fix_check(b.data()); emit(b.data(), m, "padding:new-check");
         }
         for (int v = 0; v < 256; v++) { auto b = img; b[29] = (uint8_t)v; emit(b.data(), mask, "byte29"); }
+        { // the same bytes in another order: what a word-wise / other-endian comparison or field read would also accept
+            auto rev = [](std::array<uint8_t, 32> b, int from, int n, int group) { for (int g0 = from; g0 + group <= from + n; g0 += group) std::reverse(b.begin() + g0, b.begin() + g0 + group); return b; };
+            for (int group : {2, 4, 8}) { emit(rev(img, 0, 8, group).data(), mask, "reordered:magic"); }
+            for (int r = 1; r < 8; r++) { auto b = img; std::rotate(b.begin(), b.begin() + r, b.begin() + 8); emit(b.data(), mask, "reordered:magic"); }
+            for (int i = 0; i < 8; i++) for (int j = i + 1; j < 8; j++) { auto b = img; std::swap(b[i], b[j]); emit(b.data(), mask, "reordered:magic"); }
+            { auto b = img; for (int i = 0; i < 8; i++) b[i] = (uint8_t)tolower(b[i]); emit(b.data(), mask, "reordered:magic"); }
+            for (int group : {2, 4, 8, 16, 32}) { emit(rev(img, 0, 32, group).data(), mask, "reordered:whole-image"); }
+            for (auto fr : {std::pair<int, int>{8, 2}, {30, 2}, {10, 19}, {10, 20}, {8, 22}, {28, 4}}) { auto b = rev(img, fr.first, fr.second, fr.second); emit(b.data(), mask, "reordered:field"); fix_check(b.data()); emit(b.data(), mask, "reordered:field+new-check"); }
+        }
         for (unsigned v = 0; v < 65536; v++) { auto b = img; b[30] = (uint8_t)v; b[31] = (uint8_t)(v >> 8); emit(b.data(), mask, "bytes30-31"); }
         for (int i = 10; i < 29; i++) for (int bit = 0; bit < 8; bit++) { auto b = img; b[i] ^= (uint8_t)(1 << bit); emit(b.data(), mask, "secret-bit:old-check"); fix_check(b.data()); emit(b.data(), mask, "secret-bit:new-check"); }
     }
